@@ -418,6 +418,21 @@ def rule_is_ready(ctx: Ctx, out: Collector) -> None:
                     problems.append(f'{key}: does not raise')
                 if not should_raise and res != ['value']:
                     problems.append(f'{key}: raises although everything is registered')
+        # the unusable states of the stdlib executors (fact table): a thread pool is unusable when shut down or when its
+        # initializer failed (_broken); a process pool that is shut down or broken has _shutdown_thread set (and _broken when broken)
+        ALL_FLAGS = ('_shutdown', '_broken', '_shutdown_thread')
+        unusable = {'thread': {'shut down': ('_shutdown',), 'broken (initializer failed)': ('_broken',)},
+                    'process': {'shut down': ('_shutdown_thread',), 'broken (a worker died)': ('_broken', '_shutdown_thread')}}[kind]
+        for label, on in unusable.items():
+            def run_state(oracle: Oracle, on=on):
+                obj = AObj(ci, {a: AObj(('ext', 'X'), {}) for a in attrs})
+                obj.attrs[pool_field] = AObj(('ext', 'Pool'), {f: (f in on) for f in ALL_FLAGS}, tag='pool-unusable')
+                Interp(p, oracle).call_unit(m, [], {}, obj)
+                return 'ok'
+            res = sorted({o[0] for o in enumerate_outcomes(run_state)})
+            table[f'stdlib state: {label}'] = res
+            if res != ['raise']:
+                problems.append(f'a {kind} pool that is {label} passes the readiness test')
         cons = f'{m.module.name}::{m.qualname}::raises iff the pool (or its manager) is missing or shut down'
         if not problems:
             out.ok('EX-4', cons, p.loc(m, m.node), f'{table}')
